@@ -78,7 +78,7 @@ FIRST_DECLS = {
     "led": ("led = Led(13)", "led.toggle()", None),
 }
 HEADER_TO_LIB = {"Servo.h": "Servo", "LiquidCrystal.h": "LiquidCrystal", "LiquidCrystal_I2C.h": "LiquidCrystal_I2C"}
-KNOWN_HEADERS = set(HEADER_TO_LIB) | {"Arduino.h", "Wire.h", "cstring"}
+KNOWN_HEADERS = set(HEADER_TO_LIB) | {"Arduino.h", "Wire.h", "cstring", "math.h"}
 
 
 def build(n_servo_setup: int, n_servo_loop: int, n_par: int, n_i2c: int, others: Sequence[str], animate: bool, lcd_order: str, addr0: str = "39", header: str = "while True:") -> dict:
